@@ -245,13 +245,42 @@ func verifC16RunStream(rec *kit.Rec, cs verifC16StreamCase, pauses []time.Durati
 		readerDone.Store(true)
 		done <- r
 	}()
+	// bytes are missing for good: the stream returned no error, the stack's receive side sits in stream.Read
+	// with the script exhausted, nothing is queued between it and the reader, and the reader has fewer bytes
+	// than the stack was given.  (Held over three samples 50 ms apart before it counts.)
+	missingForGood := func() bool {
+		s := st.State()
+		return s.FirstErr == nil && s.Consumed == s.Total && s.Parked && int(progress.Load()) < s.ExpLen && (hbs == nil || len(hbs.recvCh) == 0)
+	}
+	var stuck atomic.Bool
 	// a reader blocked in Read after the last byte (e.g. trailing heartbeats consumed later) is released by closing
 	go func() {
-		st.WaitState(verifC16StreamWatchdog+10*time.Second, func(verifC16StreamState) bool {
-			return readerDone.Load() || allArrived(int(progress.Load()))
-		})
-		if !readerDone.Load() && allArrived(int(progress.Load())) {
-			conn.Close()
+		for !readerDone.Load() {
+			st.WaitState(verifC16StreamWatchdog+10*time.Second, func(verifC16StreamState) bool {
+				return readerDone.Load() || allArrived(int(progress.Load())) || missingForGood()
+			})
+			if readerDone.Load() {
+				return
+			}
+			if allArrived(int(progress.Load())) {
+				conn.Close()
+				return
+			}
+			if missingForGood() {
+				p0 := progress.Load()
+				still := true
+				for i := 0; i < 3 && still; i++ {
+					time.Sleep(50 * time.Millisecond)
+					still = missingForGood() && progress.Load() == p0 && !readerDone.Load()
+				}
+				if still {
+					stuck.Store(true)
+					conn.Close()
+					return
+				}
+				continue
+			}
+			return
 		}
 	}()
 	var res verifC16ReadResult
@@ -279,6 +308,11 @@ func verifC16RunStream(rec *kit.Rec, cs verifC16StreamCase, pauses []time.Durati
 			d[k] = v
 		}
 		return d
+	}
+	if stuck.Load() {
+		rec.Violation("stream:"+cs.Variant+":bytes-missing-without-error", "the stack consumed every scripted message and is idle, but the reader never received all their bytes (and no error)",
+			detail(map[string]interface{}{"got_bytes": len(res.got), "reads": res.reads}))
+		return "violation"
 	}
 	if timedOut {
 		// the reader is blocked.  Judge only a stable state: the stack took the whole script and nothing moves.
